@@ -64,6 +64,7 @@ type target struct {
 	slow    bool
 	seeds   [][]byte
 	call    func(input []byte) (verdict string, err error)
+	again   func() // optional second evaluation on the connection of the last call
 	matcher string
 	config  string
 }
@@ -94,6 +95,7 @@ func buildTargets(c *fw.Ctx) []*target {
 		}
 		for _, udp := range kinds {
 			udp, m := udp, m
+			var last *layer4.Connection
 			name := gt.Name()
 			if udp {
 				name += "@udp"
@@ -102,12 +104,19 @@ func buildTargets(c *fw.Ctx) []*target {
 			}
 			out = append(out, &target{name: name, udp: udp, slow: gt.Slow, seeds: gt.Seeds, matcher: gt.Matcher, config: gt.Config,
 				call: func(in []byte) (string, error) {
-					// evaluated twice in a row on one connection, as the routing loop does when a second route holds a
-					// matcher of the same kind or when matching is repeated after a prefetch: neither call may panic
 					cx, _ := mt.NewConn(in, mt.Opts{UDP: udp})
+					last = cx
 					v, err := m.EvalOn(cx)
-					_, _ = m.EvalOn(cx)
 					return string(v), err
+				},
+				// evaluated a second time on the same connection, as the routing loop does when a second route holds a
+				// matcher of the same kind or when matching is repeated after a prefetch (not part of the allocation
+				// measurement of the first evaluation): it must not panic either
+				again: func() {
+					if last != nil {
+						_, _ = m.EvalOn(last)
+						last = nil
+					}
 				}})
 		}
 	}
@@ -208,6 +217,13 @@ func run(c *fw.Ctx) {
 		if t.slow {
 			n = c.Pick(300, 5000)
 		}
+		if c.Mode == "race" {
+			// the race children repeat a sample of the workload (they are 10-20 times slower per call)
+			n = min(n, 3000)
+			if t.slow {
+				n = 300
+			}
+		}
 		var maxAlloc uint64
 		idx := 0
 		eval := func(class string, in []byte) {
@@ -292,6 +308,18 @@ func measure(c *fw.Ctx, t *target, in []byte, ms *runtime.MemStats) (verdict, ki
 		}()
 		runtime.ReadMemStats(ms)
 		alloc = ms.TotalAlloc - before
+		if t.again != nil && kind == "" {
+			func() {
+				defer func() {
+					if r := recover(); r != nil {
+						kind = "panic"
+						detail = fmt.Sprintf("second evaluation on the same connection: %v\n%s", r, debug.Stack())
+						verdict = "panic"
+					}
+				}()
+				t.again()
+			}()
+		}
 		busy.Store(0)
 	})
 	if kind == "" && alloc > allocLimit {
